@@ -261,9 +261,118 @@ Definition instances : list (Z) := (%s)%%list.
        " :: ".join([{"u8": "8", "u16": "16", "u32": "32", "u64": "64", "u128": "128", "usize": "64"}[a] for a, _ in inst] + ["nil"]))
 
 
+# ---------------------------------------------------------------------------------------------------------------
+# second kernel: BitBufReader::buf_read_lz77 (webpsan/src/parse/bitstream.rs) -> Gen/Lz77Kernel.v
+# pattern-locked: match prefix_code { 0..=A => Ok(MIN.saturating_add(prefix_code.into())),
+#                                     B..=LZ77_MAX_SYMBOL => { let extra_bits = E1; let offset = E2; Ok(MIN.saturating_add(offset + self.buf_read::<u32>(extra_bits)?)) }
+#                                     _ => bail }
+# E1, E2: integers, prefix_code, extra_bits, u32::from(x), ( ), + - & << >>  (Rust precedences: + - bind tighter than << >>, which bind tighter than &)
+class LzExpr:
+    TOK = re.compile(r"\s*(?:(\d+)|(u32::from|prefix_code|extra_bits)|(<<|>>|[-+&()]))")
+
+    def __init__(self, text):
+        self.t, pos = [], 0
+        while text[pos:].strip():
+            m = self.TOK.match(text, pos)
+            if not m:
+                raise Untranslatable("lz77 expression: cannot tokenize " + text[pos:pos + 20])
+            pos = m.end()
+            self.t.append(m.group(1) or m.group(2) or m.group(3))
+        self.i = 0
+
+    def peek(self):
+        return self.t[self.i] if self.i < len(self.t) else None
+
+    def eat(self, v=None):
+        x = self.peek()
+        if x is None or (v is not None and x != v):
+            raise Untranslatable("lz77 expression: expected %s got %s" % (v, x))
+        self.i += 1
+        return x
+
+    def band(self):
+        a = self.shift()
+        while self.peek() == "&":
+            self.eat(); a = "(N.land %s %s)" % (a, self.shift())
+        return a
+
+    def shift(self):
+        a = self.add()
+        while self.peek() in ("<<", ">>"):
+            op = self.eat(); b = self.add()
+            a = "(N.shift%s %s %s)" % ("l" if op == "<<" else "r", a, b)
+        return a
+
+    def add(self):
+        a = self.atom()
+        while self.peek() in ("+", "-"):
+            op = self.eat(); a = "(%s %s %s)" % (a, op, self.atom())
+        return a
+
+    def atom(self):
+        x = self.eat()
+        if x == "(":
+            a = self.band(); self.eat(")"); return a
+        if x == "u32::from":
+            self.eat("("); a = self.band(); self.eat(")"); return a
+        if x in ("prefix_code", "extra_bits"):
+            return {"prefix_code": "c", "extra_bits": "(lz77_extra_src c)"}[x]
+        if x.isdigit():
+            return x
+        raise Untranslatable("lz77 expression: unexpected " + x)
+
+    def top(self):
+        a = self.band()
+        if self.peek() is not None:
+            raise Untranslatable("lz77 expression: trailing " + str(self.peek()))
+        return a
+
+
+def translate_lz77(src):
+    m = re.search(r"pub fn buf_read_lz77\(&mut self, prefix_code: u16\) -> Result<NonZeroU32, Error> \{\s*match prefix_code \{\s*"
+                  r"0\.\.=(\d+) => Ok\(NonZeroU32::MIN\.saturating_add\(prefix_code\.into\(\)\)\),\s*"
+                  r"(\d+)\.\.=LZ77_MAX_SYMBOL => \{\s*let extra_bits = ([^;]+);\s*let offset = ([^;]+);\s*"
+                  r"Ok\(NonZeroU32::MIN\.saturating_add\(offset \+ self\.buf_read::<u32>\(extra_bits\)\?\)\)\s*\}\s*"
+                  r"_ => bail_attach!\(ParseError::InvalidInput, InvalidLz77PrefixCode\(prefix_code\)\),\s*\}\s*\}", src)
+    if not m:
+        raise Untranslatable("buf_read_lz77 does not have the expected shape")
+    lo_last, hi_first = int(m.group(1)), int(m.group(2))
+    if hi_first != lo_last + 1:
+        raise Untranslatable("buf_read_lz77: the two ranges are not adjacent")
+    mx = re.search(r"const LZ77_MAX_SYMBOL: u16 = (\d+);", src)
+    if not mx:
+        raise Untranslatable("LZ77_MAX_SYMBOL")
+    e1 = LzExpr(m.group(3)).top()
+    e2 = LzExpr(m.group(4)).top()
+    return """(* GENERATED by tools/gen_kernels.py from webpsan/src/parse/bitstream.rs (BitBufReader::buf_read_lz77) -- do not edit *)
+From Coq Require Import NArith.
+Open Scope N_scope.
+(* match prefix_code { 0..=%d => 1 + prefix_code, %d..=%s => { extra_bits; offset; 1 + offset + read(extra_bits) }, _ => InvalidInput } *)
+Definition lz77_direct_last_src : N := %d.
+Definition lz77_max_symbol_src : N := %s.
+Definition lz77_extra_src (c : N) : N := %s.
+Definition lz77_offset_src (c : N) : N := %s.
+""" % (lo_last, hi_first, mx.group(1), lo_last, mx.group(1), e1, e2)
+
+
+def write_if_changed(out, txt):
+    try:
+        old = open(out).read()
+    except OSError:
+        old = None
+    if old != txt:
+        open(out, "w").write(txt)
+
+
 if __name__ == "__main__":
     repo = sys.argv[1] if len(sys.argv) > 1 else "/repo"
     out = sys.argv[2]
+    if len(sys.argv) > 3:
+        try:
+            write_if_changed(sys.argv[3], translate_lz77(open(repo + "/webpsan/src/parse/bitstream.rs").read()))
+        except (Untranslatable, IndexError, KeyError) as e:
+            sys.stderr.write("gen_kernels: untranslatable (lz77): %s\n" % e)
+            sys.exit(3)
     try:
         txt = translate(open(repo + "/common/src/util.rs").read())
     except (Untranslatable, IndexError, KeyError) as e:
